@@ -269,12 +269,12 @@ def gen_mutate(rng, profile):
             filt = ["f", rng.choice([["all", []], ["not", ["p", [["k", "nope"]]], []]])]
             newc = copy.deepcopy(node_at(doc, loc[:-1]))
             variant = rng.random()
-            if variant < 0.5:
+            if variant < 0.4:
                 script = [["h.new", 0, par_steps + [filt] * rng.randint(1, 2) + [last], 0], ["h.parent", 1, 0],
                           ["h.assign", 1, ["new", enc(newc)]],
                           rng.choice([["h.assign", 0, ["new", enc(rng.choice(VALS))]], ["h.pop", 0, ["none"]], ["h.del", 0]]),
                           ["h.data", 0]]
-            elif variant < 0.8:
+            elif variant < 0.62:
                 script = [["h.new", 0, par_steps + [filt], 0], ["h.assign", 0, ["new", enc(newc)]],
                           ["h.nested", 1, 0, rng.choice([[last], [["gwc"]], [], [last, ["par"]], [["gwc"], ["par"]], [last, ["par"], ["f", ["all", []]]]]), 0],
                           rng.choice([["h.assign", 1, ["new", enc(rng.choice(VALS))]], ["h.pop", 1, ["none"]], ["h.del", 1], ["h.data", 1], ["h.data", 1]])]
